@@ -130,6 +130,18 @@ func (e *Eng) evalPureSide(fn *ssa.Function, args []Val, taint []bool, bind []Va
 			fr.taint[fv] = true
 		}
 	}
+	// outside binders, long conditions and merged values are named by fresh constants with defining
+	// equations, so that they are not copied textually into every later term
+	nameB := func(t T) T {
+		if e.binderDepth > 0 || len(t) <= compactLimit {
+			return t
+		}
+		c := e.fresh("sc", sBool)
+		if !e.collect {
+			e.q.Assert(tEq(c, t))
+		}
+		return c
+	}
 	reach := map[*ssa.BasicBlock]T{}
 	edgeCond := map[[2]int]T{} // (from,to,k) approximated by from*N+succIdx
 	type retT struct {
@@ -153,7 +165,7 @@ func (e *Eng) evalPureSide(fn *ssa.Function, args []Val, taint []bool, bind []Va
 				}
 				cs = append(cs, edgeCond[[2]int{b.Index, pi}])
 			}
-			reach[b] = tOr(cs...)
+			reach[b] = nameB(tOr(cs...))
 		}
 		for _, instr := range b.Instrs {
 			switch in := instr.(type) {
@@ -176,13 +188,16 @@ func (e *Eng) evalPureSide(fn *ssa.Function, args []Val, taint []bool, bind []Va
 						v = iteVal(in.Type(), edgeCond[[2]int{b.Index, pi}], ev, v)
 					}
 				}
+				if bt, isT := v.(T); isT && isBool(in.Type()) {
+					v = nameB(bt)
+				}
 				fr.vals[in] = v
 				if tainted {
 					fr.taint[in] = true
 				}
 			case *ssa.DebugRef:
 			case *ssa.If:
-				c := e.val(fr, in.Cond).(T)
+				c := nameB(e.val(fr, in.Cond).(T))
 				e.pureEdge(b, 0, tAnd(reach[b], c), edgeCond)
 				e.pureEdge(b, 1, tAnd(reach[b], tNot(c)), edgeCond)
 			case *ssa.Jump:
@@ -765,7 +780,9 @@ func (e *Eng) specCall(fr *Frame, st *State, fn *ssa.Function, args []Val, argTa
 		// taints of captured cells are tracked in the cells themselves
 		// no side conditions under binders: they would mention the bound variable
 		var qside []T
+		e.binderDepth++
 		body, _, _ := e.evalPureSide(fv.Fn, []Val{bv}, nil, fv.Bind, bt, st, fr.oldSt, fr.depth+1, nil)
+		e.binderDepth--
 		q := "forall"
 		if strings.HasPrefix(name, "spec_exists_") {
 			q = "exists"
